@@ -273,6 +273,30 @@ def Dict.extractPrefix (d : Dict) (p : Str) : Option (Option (List (List Sym))) 
   | some (0, _, _) => some none
   | some (_, l, r) => (d.drain (r + 1 - l) { processed := l, scanneable := r + 1, last := d.elements }).map some
 
+/-- `IteratorDictStringFMINDEXDuplicates` drained over the sorted occurrence array: `next` extracts the string of
+`ids[processed]` and then advances `do processed++ while (ids[processed-1] == ids[processed])` — repetitions of
+the ID just returned are skipped (`prev`). The loop stops at the sentinel `0` the caller writes behind the last
+ID only because no ID is 0: an ID 0 in the array would carry the loop past the array and is a model fault. -/
+def Dict.drainIds (d : Dict) : Option Nat → List Nat → Option (List (List Sym))
+  | _, [] => some []
+  | prev, x :: l =>
+    if x = 0 then none
+    else if prev = some x then d.drainIds prev l
+    else
+      match extractId d.ix (if x = d.elements then 2 else x + 3) d.maxlength with
+      | none => none
+      | some s =>
+        match d.drainIds (some x) l with
+        | none => none
+        | some r => some (s :: r)
+
+/-- `StringDictionaryFMINDEX::extractSubstr` (with BWT sampling): `some none` is the NULL iterator. -/
+def Dict.extractSubstr (d : Dict) (p : Str) : Option (Option (List (List Sym))) :=
+  match locateOccs d.ix (symsOf p) with
+  | none => none
+  | some none => some none
+  | some (some occs) => (d.drainIds none (sortNat occs)).map some
+
 /-! ### What `build_index` derives from the suffix array -/
 
 /-- Text position of a row's suffix in a text of length `n`. -/
